@@ -19,6 +19,8 @@ struct View {
 
 trait Family: MaybeDynSized<Header = TagHeader> + Tag<IDType = TagType> {
     const NAME: &'static str;
+    /// alignment the type demands (tags are placed accordingly)
+    const ALIGN: usize = 8;
     fn view(&self, base: *const u8) -> View;
 }
 
@@ -120,6 +122,56 @@ dst_ty!(D8E24, 8, [u64; 3], 24, 0x5050);
 dst_ty!(D16E24, 16, [u64; 3], 24, 0x5051);
 dst_ty!(D24E24, 24, [u64; 3], 24, 0x5052);
 
+// over-aligned user types: a u128 field makes the type 16-aligned
+#[repr(C, align(16))]
+struct A16Sized {
+    header: TagHeader,
+    a: u64,
+    b: u128,
+}
+impl MaybeDynSized for A16Sized {
+    type Header = TagHeader;
+    const BASE_SIZE: usize = 32;
+    fn dst_len(_: &TagHeader) {}
+}
+impl Tag for A16Sized {
+    type IDType = TagType;
+    const ID: TagType = TagType::Custom(0x6000);
+}
+impl Family for A16Sized {
+    const NAME: &'static str = "A16Sized";
+    const ALIGN: usize = 16;
+    fn view(&self, base: *const u8) -> View {
+        View { addr_off: rel(self, base), sov: std::mem::size_of_val(self), fields: vec![(4, self.header.size.to_le_bytes().to_vec()), (8, self.a.to_le_bytes().to_vec()), (16, self.b.to_le_bytes().to_vec())] }
+    }
+}
+#[derive(ptr_meta::Pointee)]
+#[repr(C, align(16))]
+struct A16Dst {
+    header: TagHeader,
+    wide: u128,
+    tail: [u8],
+}
+impl MaybeDynSized for A16Dst {
+    type Header = TagHeader;
+    const BASE_SIZE: usize = 32;
+    fn dst_len(h: &TagHeader) -> usize {
+        assert!(h.size as usize >= Self::BASE_SIZE);
+        h.size as usize - Self::BASE_SIZE
+    }
+}
+impl Tag for A16Dst {
+    type IDType = TagType;
+    const ID: TagType = TagType::Custom(0x6001);
+}
+impl Family for A16Dst {
+    const NAME: &'static str = "A16Dst";
+    const ALIGN: usize = 16;
+    fn view(&self, base: *const u8) -> View {
+        View { addr_off: rel(self, base), sov: std::mem::size_of_val(self), fields: vec![(4, self.header.size.to_le_bytes().to_vec()), (16, self.wide.to_le_bytes().to_vec()), (32, self.tail.to_vec())] }
+    }
+}
+
 fn judge(ctx: &mut Ctx, name: &'static str, seam: &'static str, size: usize, img: &[u8], r: Out<View>) {
     match r {
         Out::Panic => {
@@ -159,7 +211,9 @@ fn family<T: Family + ?Sized>(ctx: &mut Ctx, arena: &Arena, max: usize) {
             ctx.state_direct();
             ctx.nontrivial();
             ctx.under_fills(&format!("c15/o5/{}", T::NAME), |ctx, fill| {
-                let p = arena.put(&img, true, fill);
+                arena.fill(fill);
+                // as close to the guard page as the type's alignment permits
+                let p = arena.place_at((arena.len() - img.len()) & !(T::ALIGN - 1), &img);
                 let slice: &[u8] = unsafe { std::slice::from_raw_parts(p, img.len()) };
                 let g = Generic::ref_from_slice(slice).unwrap();
                 let r = ctx.call("cast", || g.cast::<T>().view(p));
@@ -172,7 +226,10 @@ fn family<T: Family + ?Sized>(ctx: &mut Ctx, arena: &Arena, max: usize) {
         ctx.leaf(describe, |ctx| {
             ctx.state_direct();
             ctx.nontrivial();
-            let p = arena.put(&region, true, arena::FILL_A);
+            arena.fill(arena::FILL_A);
+            // the tag sits at region offset 24: choose the region's address so that the tag has the type's alignment
+            let off = ((arena.len() - region.len() - 32) & !(T::ALIGN - 1)) + (T::ALIGN - 8);
+            let p = arena.place_at(off, &region);
             let Out::Val(Ok(bi)) = ctx.call("load", || unsafe { BootInformation::load(p as *const BootInformationHeader) }) else {
                 ctx.violation("c15/region-load", || "load failed".into());
                 return;
@@ -191,11 +248,12 @@ fn family<T: Family + ?Sized>(ctx: &mut Ctx, arena: &Arena, max: usize) {
 fn run(ctx: &mut Ctx) {
     let arena = Arena::new(2);
     let max = if ctx.quick() { 96 } else { 512 };
-    ctx.bound("family", format!("user-defined tag types following the MaybeDynSized contract: sized with 0..=6 extra u32 words; DSTs with element sizes 1,2,3,4,8,24 and fixed parts 8,12,16,20,24 (where the element alignment allows): 33 types x every tag size 8..={}; via cast (tag flush against a guard page, fills A/B) and via BootInformation::get_tag", max));
+    ctx.bound("family", format!("user-defined tag types following the MaybeDynSized contract: sized with 0..=6 extra u32 words; DSTs with element sizes 1,2,3,4,8,24 and fixed parts 8,12,16,20,24 (where the element alignment allows): 33 types with alignment 8 plus two 16-aligned ones (a u128 field; tags placed at 16-aligned addresses) x every tag size 8..={}; via cast (tag flush against a guard page, fills A/B) and via BootInformation::get_tag", max));
     macro_rules! fam { ($($t:ty),*) => { $( family::<$t>(ctx, &arena, max); )* } }
     fam!(Sized0, Sized1, Sized2, Sized3, Sized4, Sized5, Sized6);
     fam!(D8E1, D12E1, D16E1, D20E1, D24E1, D8E2, D12E2, D16E2, D20E2, D24E2, D8E3, D12E3, D16E3, D20E3, D24E3);
     fam!(D8E4, D12E4, D16E4, D20E4, D24E4, D8E8, D16E8, D24E8, D8E24, D16E24, D24E24);
+    fam!(A16Sized, A16Dst);
     // built-in kinds x all sizes
     ctx.bound("builtin", format!("all 22 built-in kinds x every tag size 8..={} (VBE: 8..=800): cast gives a view of exactly the tag's padded size or panics", max));
     for kind in 0..=21u32 {
